@@ -96,6 +96,7 @@ def floors(tier):
         "gen:altport": 1,
         "gen:wb-noisa": 3,
         "opt:--lcd-timeout": 5,
+        "elements_cut_short_at_once": 3,
         "revisit_after_other": 50 if q else 700,
         "fresh_determinism_checked": 5,
         "set:models": 8 if q else 15,
@@ -176,6 +177,9 @@ def make_pool(rng, tier, size):
         if req["text"] is not None and not req.get("sibling") and rng.random() < 0.35:
             # a small budget on a kernel whose search takes milliseconds: it must never be used up, however old the process is
             req["opts"] += ["--lcd-timeout", "2"]
+        elif req["text"] is not None and not req.get("sibling") and rng.random() < 0.15:
+            # a search that is cut short at once (its own report is clock dependent and not judged); what comes after it is
+            req["opts"] += ["--lcd-timeout", "0"]
         key = digest([req["arch"], req["kernel"], req["text"], req["opts"]])
         if key in seen:
             continue
@@ -426,6 +430,8 @@ def check_sequence(W, pool, seq, R, case_extra=None):
         got = res["reports"][pos]
         if timed_out(got) or timed_out(fresh):
             budget = lcd_budget(req)
+            if budget == 0:
+                R.count("elements_cut_short_at_once")
             if timed_out(got) and not timed_out(fresh) and budget > 0 and got.get("elapsed", 1e9) < 0.8 * budget:
                 # the whole analysis took less than the budget, so the search cannot have used it up: the budget was not
                 # counted from the start of this analysis
